@@ -1,9 +1,145 @@
-(* C14 — Sets hold distinct elements of one kind and obey set algebra. *)
-From Coq Require Import List ZArith Bool.
-From Coq Require String.
+(* C14 — Sets hold distinct elements of one kind and obey set algebra.
+   Property theorems only; proofs live in Proofs/SetMP.v.
+   veq = canonical equality of values (numbers by value with +0 = -0, tuples componentwise, nested sets by
+   mutual inclusion); memb veq v l = true  means  "v is (equal to) an element of l";
+   of_list veq l = the set built from the elements written in l (MechSet::from_vec). *)
+From Coq Require Import List ZArith Bool Permutation SetoidList.
+From Coq Require Import String.
 From MechV Require Import Base.Sexp Base.Obs Model.SetM Proofs.SetMP.
 Import ListNotations.
 
-Theorem C14_stub : True.
-Proof. exact stub_true. Qed.
-Print Assumptions C14_stub.
+(* 1. the canonical equality is an equivalence relation ... *)
+Theorem C14_veq_equivalence : Equivalence veqP.
+Proof. exact veqP_equiv. Qed.
+Print Assumptions C14_veq_equivalence.
+
+(* ... for which a nested set equals each of its reorderings, and +0.0 = -0.0 *)
+Theorem C14_veq_nested_set_order : forall k n l k' n' l',
+  Permutation l l' -> veq (VSet k n l) (VSet k' n' l') = true.
+Proof. exact veq_set_perm. Qed.
+Print Assumptions C14_veq_nested_set_order.
+
+(* 2. the set invariant (no two equal elements) holds for every set that is built ... *)
+Theorem C14_set_inv_of_list : forall l, NoDupA veqP (of_list veq l).
+Proof. exact (fun l => proj1 (vnodupb_NoDupA _) (vnodupb_of_list l)). Qed.
+Print Assumptions C14_set_inv_of_list.
+
+(* ... and for the result of every operator, whatever the operands *)
+Theorem C14_set_inv_ops : forall o a b, NoDupA veqP (set_op o a b).
+Proof. exact (fun o a b => proj1 (vnodupb_NoDupA _) (set_op_nodup o a b)). Qed.
+Print Assumptions C14_set_inv_ops.
+
+(* 3. a built set contains exactly the written elements *)
+Theorem C14_mem_spec : forall v l,
+  memb veq v (of_list veq l) = true <-> exists x, In x l /\ veq v x = true.
+Proof. exact (fun v l => eq_ind_r (fun b => b = true <-> _) (inS_iff v l) (vmemb_of_list v l)). Qed.
+Print Assumptions C14_mem_spec.
+
+(* 4. the operators are the mathematical ones *)
+Theorem C14_In_union : forall v a b, memb veq v (union veq a b) = memb veq v a || memb veq v b.
+Proof. exact vmemb_union. Qed.
+Print Assumptions C14_In_union.
+
+Theorem C14_In_inter : forall v a b, memb veq v (inter veq a b) = memb veq v a && memb veq v b.
+Proof. exact vmemb_inter. Qed.
+Print Assumptions C14_In_inter.
+
+Theorem C14_In_diff : forall v a b, memb veq v (diff veq a b) = memb veq v a && negb (memb veq v b).
+Proof. exact vmemb_diff. Qed.
+Print Assumptions C14_In_diff.
+
+Theorem C14_In_symdiff : forall v a b, memb veq v (symdiff veq a b) = xorb (memb veq v a) (memb veq v b).
+Proof. exact vmemb_symdiff. Qed.
+Print Assumptions C14_In_symdiff.
+
+(* 5. the relations are the mathematical ones *)
+Theorem C14_subset_spec : forall a b,
+  subset veq a b = true <-> (forall v, memb veq v a = true -> memb veq v b = true).
+Proof. exact vsubset_spec. Qed.
+Print Assumptions C14_subset_spec.
+
+Theorem C14_psubset_spec : forall a b,
+  psubset veq a b = true <->
+  (forall v, memb veq v a = true -> memb veq v b = true) /\ (exists v, memb veq v b = true /\ memb veq v a = false).
+Proof. exact vpsubset_spec. Qed.
+Print Assumptions C14_psubset_spec.
+
+Theorem C14_superset_spec : forall a b,
+  superset veq a b = true <-> (forall v, memb veq v b = true -> memb veq v a = true).
+Proof. exact vsuperset_spec. Qed.
+Print Assumptions C14_superset_spec.
+
+Theorem C14_psuperset_spec : forall a b,
+  psuperset veq a b = true <->
+  (forall v, memb veq v b = true -> memb veq v a = true) /\ (exists v, memb veq v a = true /\ memb veq v b = false).
+Proof. exact vpsuperset_spec. Qed.
+Print Assumptions C14_psuperset_spec.
+
+(* what proper_subset.rs computes — subset and strictly fewer elements — is the proper-subset relation on sets *)
+Theorem C14_psubset_as_computed : forall a b,
+  nodupb veq a = true -> nodupb veq b = true -> psubset_len veq a b = psubset veq a b.
+Proof. exact vpsubset_len_spec. Qed.
+Print Assumptions C14_psubset_as_computed.
+
+(* 6. the size of a set is determined by its elements (two lists without repetitions and with the same
+      elements have the same length), so "number of elements" is well defined *)
+Theorem C14_size_is_length : forall a b,
+  nodupb veq a = true -> nodupb veq b = true -> (forall v, memb veq v a = memb veq v b) ->
+  List.length a = List.length b.
+Proof. exact vsame_elems_length. Qed.
+Print Assumptions C14_size_is_length.
+
+(* 7. the order (and repetition) in which elements are written is irrelevant: same elements, same size ... *)
+Theorem C14_order_irrelevant : forall l l', Permutation l l' ->
+  (forall v, memb veq v (of_list veq l) = memb veq v (of_list veq l')) /\
+  List.length (of_list veq l) = List.length (of_list veq l').
+Proof. exact (fun l l' H => conj (fun v => vof_list_perm_elems l l' v H) (vof_list_perm_size l l' H)). Qed.
+Print Assumptions C14_order_irrelevant.
+
+(* ... for every operator, relation and membership test *)
+Theorem C14_order_irrelevant_ops : forall o a a' b b', Permutation a a' -> Permutation b b' ->
+  (forall v, memb veq v (set_op o (of_list veq a) (of_list veq b)) =
+             memb veq v (set_op o (of_list veq a') (of_list veq b'))) /\
+  List.length (set_op o (of_list veq a) (of_list veq b)) = List.length (set_op o (of_list veq a') (of_list veq b')).
+Proof. exact order_irrelevant_ops. Qed.
+Print Assumptions C14_order_irrelevant_ops.
+
+Theorem C14_order_irrelevant_rels : forall r a a' b b', Permutation a a' -> Permutation b b' ->
+  rel_op r (of_list veq a) (of_list veq b) = rel_op r (of_list veq a') (of_list veq b').
+Proof. exact order_irrelevant_rels. Qed.
+Print Assumptions C14_order_irrelevant_rels.
+
+(* 8. the judge applied to the implementation's observations is sound for the property
+      (C14_spec: no two equal elements, reported size = number of elements, exactly the mathematically
+      expected elements, every element of the reported kind, nested sets well formed; relations and
+      membership = the mathematical truth value) *)
+Theorem C14_judge_sound : forall (c : case) (os : list sobs) (tag : String.string),
+  judge_case c os = v_ok tag -> Forall (C14_spec c) os.
+Proof. exact judge_case_sound. Qed.
+Print Assumptions C14_judge_sound.
+
+(* 9. the faithful model of IndexSet<Value> with the hand-written Hash violates the property on each
+      known-finding class (witnesses: {{1,2},{2,1}};  {0.0,-0.0};  {1} ∪ {"a"};  a := 1, {a} ∪ {1}) *)
+Theorem C14_refuted_nested_set_order :
+  exists o, wf_case wit_nested = true /\ kf_class wit_nested = Some "nested-set-order"%string /\
+            faithful wit_nested = Some o /\ ~ C14_spec wit_nested o.
+Proof. exact refuted_nested_set_order. Qed.
+Print Assumptions C14_refuted_nested_set_order.
+
+Theorem C14_refuted_signed_zero :
+  exists o, wf_case wit_zero = true /\ kf_class wit_zero = Some "signed-zero"%string /\
+            faithful wit_zero = Some o /\ ~ C14_spec wit_zero o.
+Proof. exact refuted_signed_zero. Qed.
+Print Assumptions C14_refuted_signed_zero.
+
+Theorem C14_refuted_mixed_kind_operands :
+  exists o, wf_case wit_mixed = true /\ kf_class wit_mixed = Some "mixed-kind-operands"%string /\
+            faithful wit_mixed = Some o /\ ~ C14_spec wit_mixed o.
+Proof. exact refuted_mixed_kind_operands. Qed.
+Print Assumptions C14_refuted_mixed_kind_operands.
+
+Theorem C14_refuted_variable_elements :
+  exists o, wf_case wit_var = true /\ kf_class wit_var = Some "variable-elements"%string /\
+            faithful wit_var = Some o /\ ~ C14_spec wit_var o.
+Proof. exact refuted_variable_elements. Qed.
+Print Assumptions C14_refuted_variable_elements.
